@@ -35,8 +35,15 @@ CLASSIFIERS = {}
 
 
 def c12_included_needs_includer(f, k):
-    """D35: a dedicated stream builds exactly this shape."""
-    return (f.get("input") or {}).get("stream") == "included-needs-includer"
+    """D35: the dedicated stream builds exactly the include shape; in the generated partitions only a missing type
+    (TypeNotFound / BuildError) under an import cycle of three or more out-of-line namespaces counts."""
+    inp = f.get("input") or {}
+    if inp.get("stream") == "included-needs-includer":
+        return True
+    if not inp.get("import_cycle3"):
+        return False
+    obs = repr(f.get("observed"))
+    return "TypeNotFound" in obs or "BuildError" in obs
 
 
 CLASSIFIERS["c12_included_needs_includer"] = c12_included_needs_includer
@@ -186,6 +193,9 @@ def run(ctx):
             ctx.notes.append("generator failed for %s: %r" % (ident, e))
             continue
         meta = {"iface": ident, "documents": len(docs)}
+        if plan.get("import_cycle3"):
+            meta["import_cycle3"] = True
+            ctx.dist["import cycle of >= 3 out-of-line namespaces"] += 1
         ctx.case(common.canon(meta), len(docs) > 1)
         ctx.dist["documents=%d" % len(docs)] += 1
         for b, pl in plan["blocks"].items():
